@@ -260,7 +260,7 @@ CLAIMED = {
              "with the implementation, and no recorded call meeting the hypotheses yields a value whose rendering panics. "
              "C20_constructor_preserves_wf / C20_method_preserves_wf / C20_built_no_panic: the same for the expression constructors "
              "and the ExpBase methods (Model/Ctor.v) and for any nesting of modelled calls whose expression arguments are built likewise.",
-        note="Partial: C20_built_no_panic covers the modelled API (Model/Api.v, Model/Ctor.v); package fn (thin wrappers, C18), Float, the batch form "
+        note="Partial: C20_built_no_panic covers the modelled API (Model/Api.v, Model/Ctor.v); package fn (thin wrappers, C18), the batch form "
              "(Start..End) of the JSON object builder are outside `built` (JsonBuildObject / Prop / PropIf / Unset are inside) - for them reachable => wfe is "
              "checked on generated values only; Go runtime stack exhaustion / allocation failure not modelled.",
         ref="DESIGN.md §6 C20"),
